@@ -261,6 +261,7 @@ pub fn run(ctx: &mut Ctx) {
     }
     crate::spaces::render_probes(ctx, &["cat", "substr"]);
     crate::spaces::width_probes(ctx);
+    crate::spaces::sweep::length_sweep(ctx);
     crate::spaces::type_grid_probes(ctx, &["cat", "substr"]);
     crate::spaces::depth_probes(ctx);
 }
